@@ -25,6 +25,7 @@ RULE = (
     "expiration {None, 2, 5} x {sync fn, async fn, sync method, async method}; non-trivial = the "
     "history contains a hit and (an eviction or an expiry or two ==-equal differently typed keys)"
 )
+RULE += ' Round 19: 11 unequal arguments whose hashes collide (-1 / -2, 0 / 2**61-1, ...) through the positional, keyword, method and async forms.'
 ASSUMPTIONS = [
     "virtual monotonic clock (exact); wrapped function takes no time and never fails",
     "at age == expiration both a cached and a fresh answer are accepted",
@@ -90,6 +91,8 @@ def programs(tier: str):
         yield {"variant": variant, "limit": 1, "expiration": None, "L": 4, "attrs": True}
         yield {"variant": variant, "limit": 2, "expiration": 2, "L": 4, "attrs": True}
     yield from fix_programs(tier)
+    for variant in ("sync", "kw", "method", "async"):
+        yield {"collide": variant}
     # the wrapped function FAILS for some arguments: its error reaches the caller, the entries of
     # the other keys stay where they were (history family and fixpoint searches)
     for variant in ("sync", "async", "msync"):
@@ -491,7 +494,73 @@ def execute_deep(program) -> Result:
     return Result(f"deep/{program['variant']}", True, r["violations"], obs, steps=r["operations"])
 
 
+COLLIDING = [-1, -2, 0, 2**61 - 1, 2 * (2**61 - 1), (-1,), (-2,), "", 0.0, 1 << 64, (1 << 64) + (2**61 - 1)]
+
+
+def _collide(program) -> Result:
+    """arguments whose HASHES collide although they are not equal (-1 / -2, 0 / 2**61-1, ...): each
+    keeps its own entry; answers are only ever values produced for equal, type-identical arguments"""
+    viols: list[dict] = []
+    variant = program["collide"]
+    calls: list = []
+
+    def body(x):
+        calls.append(x)
+        return ("value-for", type(x).__name__, repr(x), len(calls))
+
+    loop = None
+    if variant == "sync":
+        fn = cache(limit=len(COLLIDING))(body)
+        invoke = fn
+    elif variant == "kw":
+        inner = cache(limit=len(COLLIDING))(lambda *, x: body(x))
+        invoke = lambda x: inner(x=x)  # noqa: E731
+    elif variant == "method":
+
+        class Host:
+            @cache(limit=len(COLLIDING))
+            def get(self, x):
+                return body(x)
+
+        host = Host()
+        invoke = host.get
+    else:
+        loop = VLoop()
+        loop.open()
+
+        @cache(limit=len(COLLIDING))
+        async def afn(x):
+            return body(x)
+
+        def invoke(x):
+            t = loop.create_task(afn(x))
+            loop.run_ready()
+            return t.result()
+
+    try:
+        first: dict = {}
+        for rnd in range(2):
+            for i, x in enumerate(COLLIDING):
+                got = invoke(x)
+                if got[1] != type(x).__name__ or got[2] != repr(x):
+                    viols.append(viol("only-own-values", f"hash-collision/{variant}", ["value-for", type(x).__name__, repr(x)], list(got), argument=repr(x), round=rnd))
+                    break
+                if rnd == 0:
+                    first[i] = got
+                elif got != first[i]:
+                    viols.append(viol("must-hit", f"hash-collision/{variant}", list(first[i]), list(got), argument=repr(x)))
+                    break
+            if viols:
+                break
+    finally:
+        if loop is not None:
+            loop.shutdown()
+    return Result(f"collide/{variant}", True, viols, {"calls": len(calls)}, steps=2 * len(COLLIDING))
+
+
 def execute(program, ch: Chooser) -> Result:
+    if program.get("collide"):
+        return _collide(program)
     if program.get("deep"):
         return execute_deep(program)
     if program.get("fix"):
